@@ -107,6 +107,7 @@ type verifClient struct {
 	mayFail  bool
 	requests int
 	hang     bool // requests block until their context ends (then fail with its error)
+	mayCancel *verifCtx // the caller of the operation may give up after any request
 }
 
 func (c *verifClient) answer(ctx context.Context, name string) (*api.SecretValue, error) {
@@ -127,6 +128,11 @@ func (c *verifClient) answer(ctx context.Context, name string) (*api.SecretValue
 	sv := c.svc[name]
 	if sv == nil {
 		return nil, api.ErrNotFound
+	}
+	if c.mayCancel != nil {
+		if nondetBool("caller.gives.up.after.this.request") {
+			c.mayCancel.cancelled = true
+		}
 	}
 	return &api.SecretValue{Value: append([]byte(nil), sv.Value...), Version: sv.Version}, nil
 }
